@@ -653,3 +653,43 @@ package sqlx
 //@   loop 1 invariant len(all) <= loopk
 //@   loop 2 invariant len(all) <= len(from.Columns)+loopk
 //@   loop 3 invariant len(all) <= len(from.Columns)+len(to.Columns)
+
+// ---------------------------------------------------------------------------------------
+// C02: change-kind bit-set of an index
+
+//@ extern func (dd DiffDriver) IndexAttrChanged(from, to []schema.Attr) (r bool)
+//@   pure
+//@ extern func (dd DiffDriver) IndexPartAttrChanged(from, to *schema.Index, i int) (r bool)
+//@   pure
+
+//@ func CommentChange(from, to []schema.Attr) (r schema.ChangeKind)
+//@   modifies struct(schema.GeneratedExpr)
+//@   ensures only-the-comment-bit: r == schema.NoChange || r == schema.ChangeComment
+
+//@ func (d *Diff) partsChange(fromI, toI *schema.Index, renames map[string]string) (r schema.ChangeKind)
+//@   trusted
+//@   modifies elems(fromI.Parts), elems(toI.Parts)
+//@   ensures only-the-parts-bit: r == schema.NoChange || r == schema.ChangeParts
+
+//@ func (d *Diff) indexChange(from, to *schema.Index) (r schema.ChangeKind)
+//@   requires d != nil && d.DiffDriver != nil && from != nil && to != nil
+//@   modifies elems(from.Parts), elems(to.Parts), struct(schema.GeneratedExpr)
+//@   ensures unique-bit-iff-uniqueness-differs: (r&schema.ChangeUnique != 0) == (from.Unique != to.Unique)
+//@   ensures attr-bit-iff-driver-says-so: (r&schema.ChangeAttr != 0) == d.DiffDriver.IndexAttrChanged(from.Attrs, to.Attrs)
+//@   ensures no-other-bit: r&^(schema.ChangeUnique|schema.ChangeAttr|schema.ChangeParts|schema.ChangeComment) == 0
+
+//@ extern func (cs ChangeSupporter) SupportChange(c schema.Change) (r bool)
+//@   modifies nothing
+
+//@ func (d *Diff) pkDiff(from, to *schema.Table, opts *schema.DiffOptions) (r []schema.Change)
+//@   requires d != nil && d.DiffDriver != nil && from != nil && to != nil && opts != nil
+//@   requires no-change-kind-is-skipped: len(opts.SkipChanges) == 0
+//@   modifies everything
+//@   ensures at-most-one-change: len(r) <= 1
+//@   ensures no-key-before-and-after-no-change: old(from.PrimaryKey) == nil && old(to.PrimaryKey) == nil ==> len(r) == 0
+//@   ensures new-key-is-added: old(from.PrimaryKey) == nil && old(to.PrimaryKey) != nil ==> len(r) == 1 && GvcIs[*schema.AddPrimaryKey](r[0]) && r[0].(*schema.AddPrimaryKey).P == old(to.PrimaryKey)
+//@   ensures vanished-key-is-dropped: old(from.PrimaryKey) != nil && old(to.PrimaryKey) == nil ==> len(r) == 1 && GvcIs[*schema.DropPrimaryKey](r[0]) && r[0].(*schema.DropPrimaryKey).P == old(from.PrimaryKey)
+//@   ensures kept-key-is-modified-or-renamed-at-most: old(from.PrimaryKey) != nil && old(to.PrimaryKey) != nil && len(r) == 1 ==>
+//@           (GvcIs[*schema.ModifyPrimaryKey](r[0]) && r[0].(*schema.ModifyPrimaryKey).From == old(from.PrimaryKey) && r[0].(*schema.ModifyPrimaryKey).To == old(to.PrimaryKey) &&
+//@            r[0].(*schema.ModifyPrimaryKey).Change != schema.NoChange && r[0].(*schema.ModifyPrimaryKey).Change&schema.ChangeUnique == 0) ||
+//@           (GvcIs[*schema.RenameConstraint](r[0]) && old(from.PrimaryKey).Name != old(to.PrimaryKey).Name)
